@@ -155,7 +155,7 @@ let handle_smtp (kind : string) (ins : string list) (outs : string list) : bool 
   let go naming maxr maxb da acc rej ds sto dis rejo streams rules =
         let pol = load_cfg (bool_of_field da) (f acc) (f rej) (bool_of_field ds) (f sto) (f dis) (f rejo) in
         let c = { pol = pol; max_rcpt = z_of_int (int_of_string maxr); max_bytes = z_of_int (int_of_string maxb);
-                  tls_enabled = false } in
+                  tls_enabled = (kind = "smtptls") } in
         (* lua kinds carry a 7th observation: the raw reply lines (hex, ',' within a session, '|' between sessions) *)
         let (outs, raw_lines) = match outs with
           | [a; b; c; d; e; f; raw] -> ([a; b; c; d; e; f], Some raw)
@@ -198,8 +198,14 @@ let handle_smtp (kind : string) (ins : string list) (outs : string list) : bool 
                               (match String.sub stream (i + 1) (String.length stream - i - 1) with
                                | "idle" -> FIdle | "err" -> FErr | _ -> FEof))
                  | None -> (stream, FEof) in
-               let chunks = List.map f (String.split_on_char '~' body) in
                let ((items, tr), seen) =
+                 match String.index_opt body '@' with
+                 | Some i ->
+                     (* "<plain>@<secure>": STARTTLS configured; the client upgrades when it is answered 220 *)
+                     let p = f (String.sub body 0 i) and t = f (String.sub body (i + 1) (String.length body - i - 1)) in
+                     let ((i, t), _) = run_bytes_tls c o p t in ((i, t), replies_of t)
+                 | None ->
+                 let chunks = List.map f (String.split_on_char '~' body) in
                  match chunks, fin, wl with
                  | [w], FEof, None -> let ((i, t), _) = run_bytes c o w in ((i, t), replies_of t)
                  | _ -> run_net_w c o chunks fin wl in
